@@ -3,6 +3,7 @@
 package main
 
 import (
+	"os"
 	"fmt"
 	"math"
 	"reflect"
@@ -1309,6 +1310,13 @@ func c03DupRandom(c *Ctx) {
 }
 
 func runC03(c *Ctx) {
+	c03E2ESystematic(c)
+	for i := c.Budget(60, 4000); i > 0; i-- {
+		c03E2ERandom(c)
+	}
+	if os.Getenv("C03_ONLY") == "e2e" { // debugging aid
+		return
+	}
 	c03KeyCases(c, c.Budget(100, 5000))
 	c03LocKeyCases(c, c.Budget(100, 5000))
 	c03Regressions(c)
@@ -1322,11 +1330,11 @@ func runC03(c *Ctx) {
 	for i := c.Budget(50, 5000); i > 0; i-- {
 		c03HistSession(c)
 	}
-	for i := c.Budget(400, 40000); i > 0; i-- {
+	for i := c.Budget(260, 40000); i > 0; i-- {
 		c03RandomList(c, "pool", false)
 	}
 	for i := c.Budget(60, 8000); i > 0; i-- {
 		c03RandomList(c, "pool-big", true)
 	}
-	c03SharedRandom(c, c.Budget(60, 6000))
+	c03SharedRandom(c, c.Budget(40, 6000))
 }
